@@ -621,7 +621,8 @@ pub fn gen_conflict_free(t: &mut Tape, p: &Params, with_hints: bool) -> (Univers
     let good_req = |b: &mut Builder, t: &mut Tape, from: Option<usize>, target: &Vec<usize>| -> Req {
         let np = b.u.packages.len();
         let q = b.pick_target_pkg(t, from);
-        if t.chance(b.p.p_union, 1000) {
+        let p_union = if from.is_none() { b.p.p_root_union } else { b.p.p_union };
+        if t.chance(p_union, 1000) {
             let first = target_first_vs(b, t, q, target[q]);
             let mut members = vec![first];
             let k = 1 + t.below(2);
@@ -681,4 +682,39 @@ pub fn gen_conflict_free(t: &mut Tape, p: &Params, with_hints: bool) -> (Univers
             soft: vec![],
         },
     )
+}
+
+/// C08: a solution containing the first choice of every root requirement exists by
+/// construction (the target closure of a conflict-free universe), but the preferred
+/// candidates of packages that the root does not require directly are demoted targets:
+/// their first-ranked candidates carry noisy dependencies, so the search has to learn and
+/// backtrack below the direct requirements.
+pub fn gen_direct_best(t: &mut Tape, p: &Params) -> (Universe, Problem) {
+    let mut params = p.clone();
+    params.p_root_union = 0;
+    let (mut u, problem) = gen_conflict_free(t, &params, true);
+    let root_pkgs: Vec<usize> = problem
+        .reqs
+        .iter()
+        .flat_map(|r| u.req_vsets(r))
+        .map(|vs| u.vsets[vs].pkg)
+        .collect();
+    for pi in 0..u.packages.len() {
+        if root_pkgs.contains(&pi) {
+            continue;
+        }
+        let n = u.packages[pi].cands.len();
+        if n >= 2 && t.chance(2, 3) {
+            // promote a random candidate to the front of the preference order
+            let k = t.below(n);
+            let pk = &mut u.packages[pi];
+            pk.sort_rank.retain(|&c| c != k);
+            pk.sort_rank.insert(0, k);
+            if t.chance(1, 2) {
+                pk.favored = None;
+            }
+            pk.locked = None;
+        }
+    }
+    (u, problem)
 }
